@@ -310,6 +310,9 @@ class Ev:
                     self.assign(e, x)
                 return
             if len(vs) != len(t.elts):
+                if type(v) in (list, tuple) or hasattr(v, "__next__"):
+                    # a concrete sequence / iterator of the wrong length: Python raises ValueError here
+                    raise Raised("ValueError(unpack)")
                 raise Undecided("unpacking arity")
             for e, x in zip(t.elts, vs):
                 self.assign(e, x)
@@ -384,7 +387,24 @@ class Ev:
         if isinstance(e, ast.Set):
             return {self.ev(x) for x in e.elts}
         if isinstance(e, ast.JoinedStr):
-            return "<f-string>"
+            parts = []
+            for v in e.values:
+                if isinstance(v, ast.Constant):
+                    parts.append(str(v.value))
+                    continue
+                try:
+                    val = self.ev(v.value)
+                    spec = self.ev(v.format_spec) if v.format_spec is not None else ""
+                    if v.conversion == 114:
+                        val = repr(val)
+                    elif v.conversion == 115:
+                        val = str(val)
+                    elif v.conversion == 97:
+                        val = ascii(val)
+                    parts.append(format(val, spec))
+                except (Undecided, TypeError, ValueError, AttributeError):
+                    parts.append("<?>")         # a message about an abstract object
+            return "".join(parts)
         if isinstance(e, ast.BoolOp):
             v = None
             for x in e.values:
